@@ -156,15 +156,6 @@ Proof.
     rewrite L. lia.
 Qed.
 
-(* ---- the route of the case keeps the row structure (always for a ragged collection; for a dense 2-d input all
-        routes but get_motif_scores and get_kmers on un-encoded data, at /repo HEAD) *)
-Definition route_handled (c : case) : Prop :=
-  match k_op c with
-  | 0 => k_kind c <> 3
-  | 3 | 7 => k_kind c = 0
-  | _ => True
-  end.
-
 Lemma model_ok_op (c : case) : model_ok c = true ->
   k_op c = 0 \/ k_op c = 1 \/ k_op c = 2 \/ k_op c = 3 \/ k_op c = 4 \/ k_op c = 5 \/ k_op c = 6 \/ k_op c = 7
   \/ k_op c = 8 \/ k_op c = 9.
@@ -211,10 +202,10 @@ Section Sound.
   Lemma spec_kmers_concat : concat (spec_kmers (nA c) (wn c) (k_rows c)) = map (le_value (nA c)) (all_windows c).
   Proof. unfold spec_kmers, per_row, all_windows. rewrite concat_map, map_map. reflexivity. Qed.
 
-  Lemma sound_op0 : k_op c = 0 -> k_kind c <> 3 -> spec_ok c = true.
+  Lemma sound_op0 : k_op c = 0 -> spec_ok c = true.
   Proof.
-    intros Eop Hkind. pose proof sound_w1 as Hw. unfold spec_ok, model_ok in *. rewrite Hdom. rewrite Eop in *. cbn [andb].
-    assert (Er : kmers_rows c = k_rows c) by (unfold kmers_rows; destruct (Z.eqb_spec (k_kind c) 3); [contradiction|reflexivity]).
+    intros Eop. pose proof sound_w1 as Hw. unfold spec_ok, model_ok in *. rewrite Hdom. rewrite Eop in *. cbn [andb].
+    assert (Er : kmers_rows c = k_rows c) by (unfold kmers_rows, kmers_unencoded_dense_rows, dense_rows_fixed; destruct (k_kind c =? 3); reflexivity).
     rewrite Er in Hm.
     apply andb_true_iff in Hm. destruct Hm as [Hm' Hl].
     apply andb_true_iff in Hm'. destruct Hm' as [He Ho]. rewrite He. cbn [andb].
@@ -243,28 +234,29 @@ Section Sound.
     generalize (keeps_stop_of (len (k_pat c)) ltac:(lia)). unfold len. rewrite Nat2Z.id. exact (fun K => K).
   Qed.
 
-  Lemma sound_motif_eq : (k_op c = 3 \/ k_op c = 7) -> k_kind c = 0 ->
+  Lemma sound_motif_eq : (k_op c = 3 \/ k_op c = 7) ->
     get_motif_scores (k_cols c) (motif_rows c) = spec_motif (k_cols c) (k_rows c).
   Proof.
-    intros Eop Hkind. pose proof sound_w1 as Hw. destruct D as [_ [_ [_ [_ [_ [_ [_ Hop]]]]]]]. unfold op_cond in Hop.
+    intros Eop. pose proof sound_w1 as Hw. destruct D as [_ [_ [_ [_ [_ [_ [_ Hop]]]]]]]. unfold op_cond in Hop.
     assert (Hl : len (k_cols c) = k_w c).
     { destruct Eop as [E|E]; rewrite E in Hop; apply andb_true_iff in Hop; destruct Hop as [Hop _]; apply Z.eqb_eq in Hop; exact Hop. }
-    unfold motif_rows. rewrite Hkind. cbn [Z.eqb]. unfold get_motif_scores.
+    assert (Er : motif_rows c = k_rows c) by (unfold motif_rows, motif_dense_rows, dense_rows_fixed; destruct (k_kind c =? 0); reflexivity).
+    rewrite Er. unfold get_motif_scores.
     apply motif_row_local; [lia|].
     generalize (keeps_stop_of (len (k_cols c)) ltac:(lia)). unfold len. rewrite Nat2Z.id. exact (fun K => K).
   Qed.
 
-  Lemma sound_op3 : k_op c = 3 -> k_kind c = 0 -> spec_ok c = true.
+  Lemma sound_op3 : k_op c = 3 -> spec_ok c = true.
   Proof.
-    intros Eop Hkind. pose proof (sound_motif_eq (or_introl Eop) Hkind) as E.
+    intros Eop. pose proof (sound_motif_eq (or_introl Eop)) as E.
     unfold spec_ok, model_ok in *. rewrite Hdom. rewrite Eop in *. cbn [andb].
     apply andb_true_iff in Hm. destruct Hm as [He Ho]. rewrite He. cbn [andb].
     rewrite E in Ho. exact Ho.
   Qed.
 
-  Lemma sound_op7 : k_op c = 7 -> k_kind c = 0 -> spec_ok c = true.
+  Lemma sound_op7 : k_op c = 7 -> spec_ok c = true.
   Proof.
-    intros Eop Hkind. pose proof (sound_motif_eq (or_intror Eop) Hkind) as E.
+    intros Eop. pose proof (sound_motif_eq (or_intror Eop)) as E.
     unfold spec_ok, model_ok in *. rewrite Hdom. rewrite Eop in *. cbn [andb].
     apply andb_true_iff in Hm. destruct Hm as [He Ho]. rewrite He. cbn [andb].
     rewrite E in Ho. exact Ho.
@@ -317,11 +309,13 @@ Section Sound.
   Qed.
 End Sound.
 
-Theorem model_ok_implies_spec_ok_routes (c : case) :
-  in_domain c = true -> route_handled c -> model_ok c = true -> spec_ok c = true.
+(* every input form: ragged collection, one sequence as a 1-d array, equal-length sequences as a dense 2-d array
+   (encoded or not) — now that get_motif_scores and change_encoding keep the rows of a 2-d input (/repo 56c9986, d2972ec) *)
+Theorem model_ok_implies_spec_ok (c : case) :
+  in_domain c = true -> model_ok c = true -> spec_ok c = true.
 Proof.
-  intros Hdom Hr Hm. unfold route_handled in Hr.
-  destruct (model_ok_op c Hm) as [E|[E|[E|[E|[E|[E|[E|[E|[E|E]]]]]]]]]; rewrite E in Hr.
+  intros Hdom Hm.
+  destruct (model_ok_op c Hm) as [E|[E|[E|[E|[E|[E|[E|[E|[E|E]]]]]]]]].
   - apply sound_op0; assumption.
   - apply sound_op1; assumption.
   - apply sound_op2; assumption.
@@ -332,15 +326,6 @@ Proof.
   - apply sound_op7; assumption.
   - apply sound_op8; assumption.
   - apply sound_op9; assumption.
-Qed.
-
-(* the property's own input class: a ragged collection (k_kind = 0) — every window >= 1, all eight operations *)
-Theorem model_ok_implies_spec_ok (c : case) :
-  in_domain c = true -> k_kind c = 0 -> model_ok c = true -> spec_ok c = true.
-Proof.
-  intros Hdom Hk Hm. apply model_ok_implies_spec_ok_routes; try assumption.
-  unfold route_handled. rewrite Hk. destruct (k_op c) as [|p|p]; try exact I; [discriminate|].
-  destruct p as [[[[?|?|]|[?|?|]|]|[[?|?|]|[?|?|]|]|]|[[[?|?|]|[?|?|]|]|[[?|?|]|[?|?|]|]|]|]; try exact I; reflexivity.
 Qed.
 
 (* the two dense routes as they are at /repo HEAD (dense_rows_pinned: the 2-d input is treated as ONE row): the
